@@ -571,6 +571,6 @@ func TestC08(t *testing.T) {
 		"math/big is exact", "operands are delivered through evalopts.EnvVariable and as literals; the FHIRPath parser and variable lookup are trusted to deliver them unchanged (checked by C15/C17)")
 	runProperty(t, r,
 		Stage[c08Case]{Name: "matrix", Enum: c08Enum, Run: c08Run},
-		Stage[c08Case]{Name: "random", Gen: c08Gen, Run: c08Run, N: pick(10000, 200000)},
+		Stage[c08Case]{Name: "random", Gen: c08Gen, Run: c08Run, N: pick(30000, 200000)},
 	)
 }
